@@ -8,6 +8,8 @@
   established by the correspondence check, not proved.
 -/
 import CocaVerif.Proofs.Git
+import CocaVerif.Proofs.GitAuthors
+import CocaVerif.Proofs.GitChangelog
 
 namespace CocaVerif.Props.C15
 open CocaVerif CocaVerif.Git
@@ -111,6 +113,59 @@ theorem top_authors_conservation (σ : List (String × TopAuthor) → List (Stri
   rw [this]
   simpa [authorMap, GoMap.sumW, GoMap.keys, tcount] using h2
 
+/-- THE TOP-AUTHOR LIST, exactly (for every order in which the runtime ranges over the author map): a row is listed iff its
+    author has at least one commit, and it carries the number of that author's commits and his net added-minus-deleted lines -/
+theorem top_authors_exact (σ : List (String × TopAuthor) → List (String × TopAuthor)) (hσ : OracleOK σ)
+    (commits : List Commit) (t : TopAuthor) :
+    t ∈ topAuthors σ commits ↔
+      commitsBy t.name commits ≠ [] ∧ t.commitCount = (commitsBy t.name commits).length ∧
+        t.lineCount = netFrom 0 (commitsBy t.name commits) := by
+  have hperm : (topAuthors σ commits).Perm ((GoMap.entries (authorMap commits)).map (·.2)) :=
+    (List.mergeSort_perm _ _).trans ((hσ _).map _)
+  rw [hperm.mem_iff, List.mem_map]
+  constructor
+  · rintro ⟨⟨k, v⟩, hmem, rfl⟩
+    have h := (GoMap.mem_entries _ k v).mp hmem
+    rw [authorMap_exact] at h
+    by_cases he : commitsBy k commits = []
+    · simp [he] at h
+    · simp only [he, ↓reduceIte, Option.some.injEq] at h
+      subst h
+      exact ⟨he, rfl, rfl⟩
+  · rintro ⟨hne, hc, hl⟩
+    refine ⟨(t.name, t), ?_, rfl⟩
+    rw [GoMap.mem_entries, authorMap_exact]
+    simp only [hne, ↓reduceIte, Option.some.injEq]
+    cases t
+    simp_all
+
+/-- every author is listed once -/
+theorem top_authors_once (σ : List (String × TopAuthor) → List (String × TopAuthor)) (hσ : OracleOK σ)
+    (commits : List Commit) : ((topAuthors σ commits).map (·.name)).Nodup := by
+  have hperm : (topAuthors σ commits).Perm ((GoMap.entries (authorMap commits)).map (·.2)) :=
+    (List.mergeSort_perm _ _).trans ((hσ _).map _)
+  refine (hperm.map (·.name)).nodup_iff.mpr ?_
+  rw [List.map_map]
+  have hkey : (GoMap.entries (authorMap commits)).map ((fun t : TopAuthor => t.name) ∘ fun e => e.2) =
+      (GoMap.entries (authorMap commits)).map (·.1) := by
+    apply List.map_congr_left
+    rintro ⟨k, v⟩ hmem
+    have h := (GoMap.mem_entries _ k v).mp hmem
+    rw [authorMap_exact] at h
+    by_cases he : commitsBy k commits = []
+    · simp [he] at h
+    · simp only [he, ↓reduceIte, Option.some.injEq] at h
+      subst h
+      rfl
+  rw [hkey]
+  exact GoMap.entries_keys_nodup _
+
+-- non-vacuity (a test, evaluated by the compiler): two authors, one of them with two commits and a deletion
+#guard topAuthors id [{ author := "ann", changes := [⟨5, 0, "a", ""⟩] }, { author := "bob", changes := [⟨1, 0, "b", ""⟩] },
+                      { author := "ann", changes := [⟨0, 2, "a", ""⟩] }] ==
+    [{ name := "ann", commitCount := 2, lineCount := 3 }, { name := "bob", commitCount := 1, lineCount := 1 }]
+example : commitsBy "ann" [{ author := "ann" }, { author := "bob" }, { author := "ann" }] = [{ author := "ann" }, { author := "ann" }] := by decide
+
 /-- top authors are listed in non-increasing order of commits -/
 theorem top_authors_sorted (σ : List (String × TopAuthor) → List (String × TopAuthor)) (commits : List Commit) :
     (topAuthors σ commits).Pairwise (fun a b => a.commitCount ≥ b.commitCount) := by
@@ -142,6 +197,22 @@ theorem code_age_sorted (σ : List (String × Info) → List (String × Info)) (
 theorem code_age_rows (σ : List (String × Info) → List (String × Info)) (hσ : OracleOK σ) (commits : List Commit) :
     (codeAge σ commits).Perm ((GoMap.entries (buildInfos commits)).map fun (_, i) => (i.name, i.date)) :=
   (List.mergeSort_perm _ _).trans ((hσ _).map _)
+
+/-- THE CHANGELOG SUMMARY, exactly: for every conventional-commit type and every file, the number the summary shows (an absent
+    type or file counts as 0) is the number of changes to that file made by commits whose subject has that type — a brace
+    rename counted under its new name.  `typeOf` is the first group of the regenerated subject regex. -/
+theorem changelog_exact (commits : List Commit) (kw f : String) :
+    cntK (changeMap commits) kw f = (countedOf kw commits).count f := changeMap_exact commits kw f
+
+/-- a commit whose subject has no conventional type changes nothing in the summary -/
+theorem changelog_untyped_ignored (commits : List Commit) (c : Commit) (h : typeOf c = none) (kw f : String) :
+    cntK (changeMap (commits ++ [c])) kw f = cntK (changeMap commits) kw f := by
+  rw [changelog_exact, changelog_exact]
+  simp [countedOf, List.filter_append, h]
+
+-- non-vacuity (a test, evaluated by the compiler): two feat commits touching a.go, one fix commit, one untyped
+#guard cntK (changeMap [{ message := "feat: x", changes := [⟨1, 0, "a.go", ""⟩, ⟨1, 0, "b.go", ""⟩] }, { message := "fix(core): y", changes := [⟨1, 0, "a.go", ""⟩] },
+                        { message := "feat(ui): z", changes := [⟨0, 1, "a.go", ""⟩] }, { message := "wip", changes := [⟨1, 0, "a.go", ""⟩] }]) "feat" "a.go" == 2
 
 /-- the regular expressions the rename notations are read with are the ones in the Go source -/
 theorem move_regex_sources_pinned :
